@@ -105,3 +105,45 @@ theorem uniform_grid_facts (h : ℝ) (hh : 0 ≤ h) (m k : ℕ) :
 
 end PyrexR
 end
+
+noncomputable section
+namespace PyrexR
+open MeasureTheory
+
+/-- for an antitone function the per-cell oscillation bounds `f b ≤ · ≤ f a` telescope -/
+theorem oscSum_antitone (f : ℝ → ℝ) (t0 : ℝ) (ts : List ℝ) :
+    oscSum (fun _ b => f b) (fun a _ => f a) (t0 :: ts) = f t0 - f ((t0 :: ts).getLast (by simp)) := by
+  induction ts generalizing t0 with
+  | nil => simp [oscSum]
+  | cons t1 ts ih =>
+    simp only [oscSum]
+    have hl : (t0 :: t1 :: ts).getLast (by simp) = (t1 :: ts).getLast (by simp) := List.getLast_cons (by simp)
+    rw [ih t1, hl]
+    ring
+
+theorem oscSum_monotone (f : ℝ → ℝ) (t0 : ℝ) (ts : List ℝ) :
+    oscSum (fun a _ => f a) (fun _ b => f b) (t0 :: ts) = f ((t0 :: ts).getLast (by simp)) - f t0 := by
+  induction ts generalizing t0 with
+  | nil => simp [oscSum]
+  | cons t1 ts ih =>
+    simp only [oscSum]
+    have hl : (t0 :: t1 :: ts).getLast (by simp) = (t1 :: ts).getLast (by simp) := List.getLast_cons (by simp)
+    rw [ih t1, hl]
+    ring
+
+/-- clamp to `[0,1]` -/
+def clamp01 (x : ℝ) : ℝ := max 0 (min x 1)
+
+theorem clamp01_mono : Monotone clamp01 := by
+  intro a b h; unfold clamp01; exact max_le_max (le_refl _) (min_le_min h (le_refl _))
+
+theorem clamp01_mem (x : ℝ) : clamp01 x ∈ Set.Icc (0:ℝ) 1 := by
+  unfold clamp01; constructor
+  · exact le_max_left _ _
+  · exact max_le (by norm_num) (min_le_right _ _)
+
+theorem clamp01_of_mem {x : ℝ} (h : x ∈ Set.Icc (0:ℝ) 1) : clamp01 x = x := by
+  unfold clamp01; rw [min_eq_left h.2, max_eq_right h.1]
+
+end PyrexR
+end
